@@ -30,6 +30,10 @@ def run(ctx):
     D.rule_key_equality(res, "C06-R5", m)
     D.rule_loop_typestate(res, "C06-R4", m)
     D.rule_unsegmented_delivered(res, "C06-R4", m)
+    # a frame that cannot be parsed discards the open message only if it is walked at all: decode leaves early for nothing but
+    # 'no frame header' / TECMP (a runt frame skipped at the door lets the next continuation complete the aborted message)
+    D.rule_entry_classification(res, "C06-R4", m, parts=("early-returns",))
+    D.rule_header_reads(res, "C06-R1", ctx, fb)  # the fields the accept guard compares are the wire's (shared with C05-R11 / C12-R1)
     from rules import encoder_rules as E
     em = E.EncoderModel(fb)
     E.rule_counter_writers(res, "C06-R6", em)
